@@ -76,6 +76,9 @@
 //    once. Since /repo d278df5 the snub keeps the peer's interest: set_snubbed(false) re-queues it and
 //    unchokes at once when the 10 s have passed (before that fix a fresh INTERESTED was needed).
 //    See harness/c05.cc for a recipe that works with both.
+//  * Robustness (ROBUSTNESS.md): reach private containers generically (auto, range-for, .size()); never spell a
+//    private container's type in a driver; read constants from the compiled code (probe), not from source text;
+//    wrap every case in a CaseWatchdog.
 //  * Observers (dump_*) only READ private state (-fno-access-control); never write it.
 //  * Content of a torrent is a pure function of (content_seed, global offset): content_byte().
 //    T->content holds it; T->piece(i) / T->piece_size(i) slice it; on-disk deviations are listed
@@ -155,6 +158,20 @@ struct Torrent {
   torrent::DownloadMain* main();     // private library object (observers)
   torrent::DownloadWrapper* wrapper();
   std::string completed_bits() const;   // "1101..." one char per piece, from the library
+};
+
+// Per-case watchdog (ROBUSTNESS.md rule 5): put one on the stack around each case. If the case is still
+// running after `seconds` of REAL time (default 30; env LTV_CASE_TIMEOUT overrides) the process prints
+// "TIMEOUT watchdog ..." to stderr and exits with code 4: ltv.run_sharded records that case as
+// CRASH TIMEOUT... (report it as a `hang` violation with the case as replay) and continues with the rest.
+class CaseWatchdog {
+public:
+  explicit CaseWatchdog(int seconds = 30);
+  ~CaseWatchdog();
+  CaseWatchdog(const CaseWatchdog&) = delete;
+private:
+  struct Impl;
+  Impl* m_impl;
 };
 
 class Session {
